@@ -143,23 +143,33 @@ func ParseEntities(op modelv1.LogicalExpression_LogicalOp, input []*modelv1.TagV
 		if !leftAny && rightAny {
 			return left
 		}
-		mergedEntities = append(mergedEntities, left...)
-		mergedEntities = append(mergedEntities, right...)
-		for i := 0; i < count; i++ {
-			entry := pbv1.AnyTagValue
-			for j := 0; j < len(mergedEntities); j++ {
-				e := mergedEntities[j][i]
-				if e == pbv1.AnyTagValue {
-					continue
+		// Each side is a list of alternatives (an IN condition yields one entity per value): the conjunction is
+		// every compatible pair, not one entity folded from all alternatives.
+		for _, l := range left {
+			for _, r := range right {
+				merged := make([]*modelv1.TagValue, count)
+				compatible := true
+				for i := 0; i < count && compatible; i++ {
+					switch {
+					case l[i] == pbv1.AnyTagValue:
+						merged[i] = r[i]
+					case r[i] == pbv1.AnyTagValue:
+						merged[i] = l[i]
+					case pbv1.MustCompareTagValue(l[i], r[i]) == 0:
+						merged[i] = l[i]
+					default:
+						compatible = false
+					}
 				}
-				if entry == pbv1.AnyTagValue {
-					entry = e
-				} else if pbv1.MustCompareTagValue(entry, e) != 0 {
-					return nil
+				if compatible {
+					mergedEntities = append(mergedEntities, merged)
 				}
 			}
-			result[i] = entry
 		}
+		if len(mergedEntities) == 0 {
+			return nil
+		}
+		return mergedEntities
 	case modelv1.LogicalExpression_LOGICAL_OP_OR:
 		if leftAny {
 			return left
